@@ -3,6 +3,10 @@
 //
 //   package <hex>                              (used by C16 only)
 //   filter <hex pattern> <strict 0|1> <invert 0|1>
+//   repeat <n>                                 the SAME output object receives n runs of the registry (CommandLineTestRunner's
+//                                              -r<n> loop: printTestRun(i, n), a fresh TestResult, runAllTests)
+//   repeat <n>                                 the SAME output object receives n runs of the registry (CommandLineTestRunner's
+//                                              -r<n> loop: printTestRun(i, n), a fresh TestResult, runAllTests)
 //   verbose <0|1|2>                            TestOutput::verbose(level_quiet | level_verbose | level_veryVerbose) before the run
 //   test <hex group> <hex name> <hex file> <line> <run|ign>     (ign = IgnoredUtestShell)
 //   print <hex file> <line> <hex text>         UtestShell::print(text, file, line)
@@ -111,9 +115,10 @@ struct Registry {
     std::string package;
     bool has_filter; std::string filter; bool strict, invert;
     int verbosity;
+    int repeat;
     bool realio, separate;
     std::vector<Script> scripts;
-    Registry() : has_filter(false), strict(false), invert(false), verbosity(0), realio(false), separate(false) {}
+    Registry() : has_filter(false), strict(false), invert(false), verbosity(0), repeat(1), realio(false), separate(false) {}
 };
 
 inline bool is_number(const std::string& s) {
@@ -137,6 +142,7 @@ inline std::string join(const vh::Words& w) {
 // applies one definition line; false = malformed / not applicable (printed as `> skip`)
 inline bool apply_op(Registry& r, const vh::Words& w) {
     if (w[0] == "package" && w.size() == 2 && is_hex(w[1])) { r.package = vh::unhex(w[1]); return true; }
+    if (w[0] == "repeat" && w.size() == 2 && w[1].size() == 1 && w[1][0] >= '1' && w[1][0] <= '9') { r.repeat = w[1][0] - '0'; return true; }
     if (w[0] == "realio" && w.size() == 1) { r.realio = true; return true; }
     if (w[0] == "separate" && w.size() == 1) { r.separate = true; return true; }
     if (w[0] == "verbose" && w.size() == 2 && (w[1] == "0" || w[1] == "1" || w[1] == "2")) { r.verbosity = w[1][0] - '0'; return true; }
@@ -205,7 +211,8 @@ inline void run_registry(const Registry& r, TestOutput& out) {
     if (r.strict) filter.strictMatching();
     if (r.invert) filter.invertMatching();
     if (r.has_filter) b.reg.setNameFilters(&filter);
-    {
+    for (int i = 1; i <= r.repeat; i++) {          // CommandLineTestRunner::runAllTests' repeat loop
+        out.printTestRun((size_t) i, (size_t) r.repeat);
         TestResult result(out);
         b.reg.runAllTests(result);
     }
